@@ -85,9 +85,6 @@ func runC11(cfg *config, res *monitor.Result) {
 	targets = append(targets, cfg.targets(true)...)
 	targets = append(targets, cfg.targets(false)...)
 	for _, t := range targets {
-		if t.pkg.Fast && len(t.pkg.Exts[t.md.FullName()]) > 0 {
-			continue // generated extension snippets: listed for C04-C08
-		}
 		ops := opsFor(t.pkg.Flavour)
 		kind := "plain"
 		if t.pkg.Fast {
